@@ -381,5 +381,29 @@ if __name__ == "__main__":
         with open(os.path.join(OUT, "results.jsonl"), "w") as f:
             for r in out:
                 f.write(json.dumps(r) + "\n")
+    elif a[0] == "recheck-force":
+        # re-run survivors of the given files against a check that was strengthened since (parallel)
+        check, files = a[1], a[2:]
+        rs = [json.loads(l) for l in open(os.path.join(OUT, "results.jsonl"))]
+        todo = [r for r in rs if r["status"] in ("survived", "inconclusive") and r["file"] in files]
+        def one(r):
+            saved = CHECKS[r["file"]]
+            CHECKS[r["file"]] = [check]
+            try:
+                return r, run_one({k: r[k] for k in ("file", "line", "op", "old", "new", "id")})
+            finally:
+                CHECKS[r["file"]] = saved
+        for f_ in files:
+            CHECKS[f_] = [check]
+        with ThreadPoolExecutor(max_workers=6) as ex:
+            for r, r2 in ex.map(one, todo):
+                if "checks" in r2:
+                    r.setdefault("checks", {})[check + "-rerun"] = r2["checks"].get(check)
+                if r2["status"] == "detected":
+                    r["status"], r["detected_by"] = "detected", check + " (after strengthening)"
+                print(r["id"], r["file"], r["line"], r["op"], "->", r["status"], flush=True)
+        with open(os.path.join(OUT, "results.jsonl"), "w") as f:
+            for r in rs:
+                f.write(json.dumps(r) + "\n")
     elif a[0] == "report":
         report()
